@@ -4,6 +4,11 @@ manifest stays valid and current as checks are added)."""
 import json, subprocess
 
 CLAIMED = {
+    "C01": dict(
+        level="exploration", design="§6 C01",
+        technique="deterministic simulation: real App::run + ThreadPool on humsim's in-memory TCP and virtual clock, reference HTTP clients with explicit stream segmentation, seeded schedules and network faults, reference connection model as oracle",
+        text="Seeded search over application configurations, client scripts (1..8 clients, 1..6 requests each over methods x targets x versions x Connection x bodies x malformed kinds x idle gaps), explicit segmentations of the byte stream (one byte per segment up to several requests per segment), lock-step and pipelined pacing, endings (close/half-close/RST/truncation), short reads/writes, slow readers, latency, and thread schedules. Oracle: strict response-stream grammar, count/order, version/Date/Server/CORS/Content-Length/body, keep-alive disposition and self-delimitation, 400/408 mapping with virtual-time lower bound, panic isolation, handler log = requests sent. Sampling: a clean batch is evidence, not proof.",
+        note="Trusted: humsim scheduler and TCP model (reliable ordered byte stream; close with unread data modelled as orderly FIN; server-side receive window >= one client script); the reference HTTP grammar; threaded runtime only (tokio twin not covered by this check)."),
     "C08": dict(
         level="exploration", design="§6 C08",
         technique="deterministic simulation: real ThreadPool under the humsim baton scheduler, seeded random/sticky/PCT/round-robin schedules, real panics, stuck detection",
